@@ -1797,17 +1797,17 @@ func c18decEntries(api func(uint32) sonic.API) []c18decEntry {
 	return []c18decEntry{
 		{"api.UnmarshalFromString", false, id, always, func(cd uint32, doc string, dst interface{}) error { return api(cd).UnmarshalFromString(doc, dst) }},
 		{"api.NewDecoder", true, id, always, func(cd uint32, doc string, dst interface{}) error {
-			return api(cd).NewDecoder(strings.NewReader(doc)).Decode(dst)
+			return c18twice(api(cd).NewDecoder(strings.NewReader(c18two(doc))), dst)
 		}},
 		{"api.NewDecoder.UseNumber()", true, func(c uint32) uint32 { return c&^(1<<c18UseInt64) | 1<<c18UseNumber }, always, func(cd uint32, doc string, dst interface{}) error {
-			d := api(cd).NewDecoder(strings.NewReader(doc))
+			d := api(cd).NewDecoder(strings.NewReader(c18two(doc)))
 			d.UseNumber()
-			return d.Decode(dst)
+			return c18twice(d, dst)
 		}},
 		{"api.NewDecoder.DisallowUnknownFields()", true, func(c uint32) uint32 { return c | 1<<c18DisallowUnknownFields }, always, func(cd uint32, doc string, dst interface{}) error {
-			d := api(cd).NewDecoder(strings.NewReader(doc))
+			d := api(cd).NewDecoder(strings.NewReader(c18two(doc)))
 			d.DisallowUnknownFields()
-			return d.Decode(dst)
+			return c18twice(d, dst)
 		}},
 		{"decoder.Decoder.SetOptions", false, id, always, direct(func(d *decoder.Decoder, cd uint32) { d.SetOptions(c18decOpts(cd)) })},
 		{"decoder.Decoder.setters", false, id, always, direct(func(d *decoder.Decoder, cd uint32) { c18setDec(d, cd, false) })},
@@ -1815,14 +1815,14 @@ func c18decEntries(api func(uint32) sonic.API) []c18decEntry {
 			func(c uint32) bool { return c18has(c, c18UseInt64) || c18has(c, c18UseNumber) },
 			direct(func(d *decoder.Decoder, cd uint32) { c18setDec(d, cd, true) })},
 		{"decoder.StreamDecoder.SetOptions", true, id, always, func(cd uint32, doc string, dst interface{}) error {
-			d := decoder.NewStreamDecoder(strings.NewReader(doc))
+			d := decoder.NewStreamDecoder(strings.NewReader(c18two(doc)))
 			d.SetOptions(c18decOpts(cd))
-			return d.Decode(dst)
+			return c18twice(d, dst)
 		}},
 		{"decoder.StreamDecoder.setters", true, id, always, func(cd uint32, doc string, dst interface{}) error {
-			d := decoder.NewStreamDecoder(strings.NewReader(doc))
+			d := decoder.NewStreamDecoder(strings.NewReader(c18two(doc)))
 			c18setDec(d, cd, false)
-			return d.Decode(dst)
+			return c18twice(d, dst)
 		}},
 		{"sonic.Unmarshal", false, id, zero, func(cd uint32, doc string, dst interface{}) error { return sonic.Unmarshal([]byte(doc), dst) }},
 		{"sonic.UnmarshalString", false, id, zero, func(cd uint32, doc string, dst interface{}) error { return sonic.UnmarshalString(doc, dst) }},
@@ -1995,6 +1995,45 @@ func (w *c18world) checkEncEntry(e *c18encEntry, ce uint32, p *c18enc) *ev.Viola
 	return c18violation(c18case{Part: "B-enc", Probe: p.name, Cfg: ce, Bit: -1, Entry: e.name},
 		&c18fail{"entry:" + e.name + ":" + opt + ":differs-from-config", c18clip(r), c18clip(g)},
 		"entry point "+e.name+" with the option set differs from the frozen Config with the same switches")
+}
+
+// A stream decoder is given the document followed by a second one of the same shape and
+// length with every digit and letter changed, and decodes both: the value handed out by the
+// first Decode is observed only afterwards, when the stream's buffer holds the second
+// document (a result that still points into the buffer has changed by then).
+func c18two(doc string) string { return doc + "\n" + c18scramble(doc) }
+
+func c18scramble(doc string) string {
+	b := []byte(doc)
+	in := false
+	for i := 0; i < len(b); i++ {
+		c := b[i]
+		switch {
+		case in && c == '\\':
+			i++
+			if i < len(b) && b[i] == 'u' {
+				i += 4
+			}
+		case c == '"':
+			in = !in
+		case in && (c >= 'a' && c < 'z' || c >= 'A' && c < 'Z'):
+			b[i] = c + 1
+		case c >= '1' && c < '9':
+			b[i] = c + 1
+		}
+	}
+	return string(b)
+}
+
+func c18twice(d interface{ Decode(interface{}) error }, dst interface{}) error {
+	if err := d.Decode(dst); err != nil {
+		return err
+	}
+	func() {
+		defer func() { recover() }()
+		d.Decode(reflect.New(reflect.TypeOf(dst).Elem()).Interface())
+	}()
+	return nil
 }
 
 func (w *c18world) checkDecEntry(e *c18decEntry, cd uint32, p *c18dec) *ev.Violation {
